@@ -259,7 +259,19 @@ func (lc *LocalConn) start(wg *sync.WaitGroup) {
 	for {
 		select {
 		case buff := <-lc.incomingQueue:
-			lc.outgoingQueue <- buff
+			select {
+			case lc.outgoingQueue <- buff:
+			case <-lc.closeCh:
+				// The connection is closed while the outgoing queue is full:
+				// whoever closes it (holding the manager's lock) waits for the
+				// confirmation below, and the only reader of the queue may be
+				// waiting for the closer. Do not insist on the hand-over.
+				close(lc.outgoingQueue)
+				close(lc.incomingQueue)
+				lc.closeConfirm <- true
+				wg.Done()
+				return
+			}
 		case <-lc.closeCh:
 			// to signal that the conn is closed
 			close(lc.outgoingQueue)
